@@ -572,7 +572,7 @@ func (u *Upgrade) reuseValues(chart *chart.Chart, current *release.Release, newV
 			return nil, errors.Wrap(err, "failed to rebuild old values")
 		}
 
-		newVals = chartutil.CoalesceTables(newVals, current.Config)
+		newVals = chartutil.MergeTables(newVals, current.Config)
 
 		chart.Values = oldVals
 
@@ -583,7 +583,7 @@ func (u *Upgrade) reuseValues(chart *chart.Chart, current *release.Release, newV
 	if u.ResetThenReuseValues {
 		slog.Debug("merging values from old release to new values")
 
-		newVals = chartutil.CoalesceTables(newVals, current.Config)
+		newVals = chartutil.MergeTables(newVals, current.Config)
 
 		return newVals, nil
 	}
